@@ -15,11 +15,6 @@ variable {H F P : Type} [DecidableEq H] [DecidableEq F] [DecidableEq P]
 earlier in the same backup or in an earlier backup of the same group. -/
 def Resolvable (group : List (List (Rec H F P))) : Prop := ResolvesIn [] group.flatten
 
-/-- What `load_backups_metadata` gets to see: manifest `i` is readable iff `mask[i]`. -/
-def view : List (List (Rec H F P)) → List Bool → Loaded H F P
-  | rs :: rest, m :: ms => (if m then some rs else none) :: view rest ms
-  | rs :: rest, [] => some rs :: view rest []
-  | [], _ => []
 
 /-- The identity-implies-content assumption of the property, for one run: a file whose (device,
 inode, mtime) equal those recorded for its path in the group's previous backup has the recorded size. -/
@@ -118,10 +113,6 @@ inductive Op (H F P : Type) where
   /-- deletion of any set of whole groups (any `max_backup_groups`, local or cloud) -/
   | deleteGroups (keep : List Bool)
 
-def keepMasked {α} : List α → List Bool → List α
-  | x :: xs, k :: ks => if k then x :: keepMasked xs ks else keepMasked xs ks
-  | xs, [] => xs
-  | [], _ => []
 
 def step (emptyHash : H) (st : Store H F P) : Op H F P → Store H F P
   | .run es mask newGroup =>
